@@ -55,6 +55,8 @@ def canon_json(text, opaque=()):
     ttl = "N" if d["ttl"] is None else jval(float(d["ttl"]))
     name = "N" if d["source_iso_name"] is None else str(d["source_iso_name"]["name"])
     hk = "N" if d["hash"] is None else "h" + d["hash"]
+    if d["hash"] is not None and any(d["fields"][i]["part_of_primary_key"] for i in opaque if i < len(d["fields"])):
+        hk = "*"        # the key contains text the model does not decode (S?): the digest cannot be compared
     return f"json {d['PGN']} {harness.hx(d['id'].encode())} {harness.hx(d['description'].encode())} {ttl} {d['source']} {d['destination']} {d['priority']} name={name} hk={hk} {fs}"
 
 
@@ -182,6 +184,35 @@ def monitor(ctx):
                 got.append(j)
             if got != exp:
                 hits.setdefault(f"C15/dump/{dump_pgns}", (f"dump filter {dump_pgns}: the file has {len(got)} lines, {len(exp)} returned messages match the filter (or the content differs)", "dump", 0))
+    # dump through the gateway clients: after client.close() the file holds the JSON of every delivered message that matches the filter
+    import clientcorr
+    import clientsim
+    for t, (kind, dump_pgns) in enumerate([(k, f) for k in clientsim.Sim.KINDS for f in ([], [127508], ["batteryStatus"], [130312])]):
+        with tempfile.TemporaryDirectory() as td:
+            fn = os.path.join(td, "c.jsonl")
+            packets = clientcorr.c12_stream(kind, rnd, rnd.choice([2, 5, 70]))
+            stream = b"".join(packets)
+            reads = clientcorr.c12_segment(rnd, stream, rnd.choice(["all", "rand"]))
+            sim = clientsim.Sim(kind, cb_mode="ok", dump_to_file=fn, dump_pgns=dump_pgns)
+            sim = clientcorr.c12_session(kind, packets, reads, "ok", sim=sim)
+            n += len(packets)
+            exp = []
+            for m in sim.cb_log:
+                if not dump_pgns or m.PGN in [x for x in dump_pgns if isinstance(x, int)] or m.id.lower() in [x.lower() for x in dump_pgns if isinstance(x, str)]:
+                    j = json.loads(m.to_json())
+                    j["timestamp"] = None
+                    exp.append(j)
+            got = []
+            try:
+                for l in open(fn).read().splitlines():
+                    j = json.loads(l)
+                    j["timestamp"] = None
+                    got.append(j)
+            except Exception as e:
+                got = [f"unreadable dump file: {e}"]
+            if got != exp:
+                hits.setdefault(f"C15/dump/client-{kind}", (f"{kind} client, dump filter {dump_pgns}: after close() the dump file has {len(got)} complete lines, {len(exp)} delivered messages match the filter "
+                                                            f"(or the content differs)", "client-dump", [kind, dump_pgns, [r.hex() for r in reads]]))
     return hits, n
 
 
